@@ -111,6 +111,8 @@ def control_family() -> list[dict]:
     fam.append(P("mutex2", [S("a"), S("b", ["a"], mutex="m"), S("c", ["a"], mutex="m"), S("d", ["b", "c"])]))
     fam.append(P("mutex3", [S("b", mutex="m", tasks=[T("b.1"), T("b.2")]), S("c", mutex="m"), S("e", mutex="m")]))
     fam.append(P("mutexfail", [S("a"), S("b", ["a"], mutex="m", tasks=[T("b.1", "terminal")]), S("c", ["a"], mutex="m")]))
+    # a mutex holder that suspends (waits for a signal) is alive but not RUNNING: only the claim row keeps its sibling out
+    fam.append(P("mutexsusp", [S("b", mutex="m", tasks=[T("b.1", "suspend")]), S("c", mutex="m", tasks=[T("c.1"), T("c.2")])]))
     fam.append(P("choice2", [S("a"), S("b", ["a"], choice="g"), S("c", ["a"], choice="g"), S("d", ["b"]), S("e", ["c"])]))
     fam.append(P("choice3", [S("b", choice="g"), S("c", choice="g"), S("e", choice="g", tasks=[T("e.1"), T("e.2")])]))
     return fam
